@@ -737,12 +737,19 @@ func (g *FuncGen) execReturn(x *ssa.Return, st *State) error {
 		}
 	}
 	_ = ins
+	var retTerms []string
+	for _, r := range x.Results {
+		retTerms = append(retTerms, g.valOrAddr(r, st))
+	}
 	for _, cl := range g.c.Ensures {
 		t, err := g.evalBool(cl.Expr, env)
 		if err != nil {
 			return fmt.Errorf("%s: ensures %s: %v", g.fname, cl.Src, err)
 		}
 		g.obligePost(cl, st.reach, t, x.Pos())
+		key := cl.Label + "\x00" + cl.Src
+		pp := g.posts[key]
+		pp.parts[len(pp.parts)-1].Results = retTerms
 	}
 	return nil
 }
